@@ -352,6 +352,10 @@ def handle (op : String) (args : List String) : Option String :=
         pure (RootNode.dir t, t)
       | _ => none
     pure ("wf=" ++ boolStr t.wf ++ " " ++ showWalk (walk root rn))
+  | "refused", [fs, chain] => do
+    let fs ← parseFs fs
+    let chain ← pathList chain
+    pure (boolStr (refusedBy fs chain))
   | "reach", [e, env, v] => do
     let te := tokens e
     let tn := tokens env
